@@ -108,6 +108,16 @@ def _renamed_from_script(x, multi):
     return t.get_html_string()
 
 
+def _head_content_path(x, with_tag):
+    """Plain strings passed to head_content() are text like anywhere else; the listing line (whose name is a content
+    hash) is cut out so that the surroundings do not depend on the leaf."""
+    import re as _re
+
+    hc = ht.head_content(x, ht.tags.title("t")) if with_tag else ht.head_content(x)
+    out = ht.HTMLDocument(div("b", hc)).render()["html"]
+    return _re.sub(r"<script type=\"application/html-dependencies\">[^<]*</script>", "<listing/>", out)
+
+
 def _doc_append(x):
     d = ht.HTMLDocument(div("a"))
     d.append(x, span("z"))
@@ -115,6 +125,9 @@ def _doc_append(x):
 
 
 PATHS = {
+    "head_content_text": lambda x: _head_content_path(x, False),
+    "head_content_text_and_tag": lambda x: _head_content_path(x, True),
+    "dependency_head_list": lambda x: ht.HTMLDocument(div(ht.HTMLDependency("d", "1", head=[x, ht.tags.title("t")]))).render()["html"],
     "after_html_twin": _after_html_twin,
     "after_failed_script_render": _after_failed_script_render,
     "renamed_from_script": lambda x: _renamed_from_script(x, False),
